@@ -141,6 +141,28 @@ fn check_encode_one(cx: &Ctx<'_>, r: &RFrame, distinct: &mut HashSet<Vec<u8>>) -
                     Err(e) => cx.viol("roundtrip.reject.PushVectored".into(), format!("{e:?}"), &want),
                 }
             }
+            // two vectored frames are equal iff their payloads are the same octets, however they are cut
+            let sps = splits3(data);
+            for a in &sps {
+                let fa = Frame::new_push_vectored(*id, a.iter().map(|p| CowBytes::Temporary(p)).collect::<Vec<_>>());
+                for b in &sps {
+                    evals += 1;
+                    let fb = Frame::new_push_vectored(*id, b.iter().map(|p| CowBytes::Temporary(p)).collect::<Vec<_>>());
+                    if fa != fb {
+                        cx.viol("eq.vectored-splits-differ".into(), format!("vectored Push frames with the same payload cut as {a:?} and as {b:?} compare unequal"), &want);
+                    }
+                }
+                if !data.is_empty() {
+                    evals += 1;
+                    let mut other = data.clone();
+                    let last = other.len() - 1;
+                    other[last] ^= 1;
+                    let fo = Frame::new_push_vectored(*id, vec![CowBytes::Temporary(&other[..last]), CowBytes::Temporary(&other[last..])]);
+                    if fa == fo {
+                        cx.viol("eq.vectored-different-payloads-equal".into(), format!("vectored Push frames with payloads {} and {} compare equal", hex(data), hex(&other)), &want);
+                    }
+                }
+            }
         }
         // append_push_data == encoding the concatenation
         for cut in [0, data.len() / 2, data.len()] {
